@@ -316,3 +316,200 @@ Proof.
 Qed.
 
 End LimitNodes.
+
+(* ================================================================ Model/AggregateLazy.v: completing the rows *)
+Section AggFinish.
+Variable F : Type.
+Variable fadd fsub fmul fdiv : F -> F -> F.
+Variable fltb : F -> F -> bool.
+Variable fis0 : F -> bool.
+Variable of_Z : Z -> F.
+Variable to_Z : F -> Z.
+Variable fmt_f bits_f : F -> bytes.
+Variable json_f : F -> option bytes.
+Variable parse_f : bytes -> option F.
+Variable json_s : bytes -> bytes.
+
+Lemma nf_exec_res {A} (o : option A) : nf anyv (exec_res o).
+Proof. destruct o; exact I. Qed.
+
+Lemma nf_anext rows : nf anyv (anext fadd fsub fmul fdiv fis0 of_Z json_f json_s rows).
+Proof.
+  destruct rows as [|kr rest]; cbn [anext]; [exact I|].
+  apply nf_bind' with (QA := anyv); [apply nf_exec_res|]. intros; exact I.
+Qed.
+
+Lemma nf_abatch B rows : 1 <= B ->
+  nf (cb_post _ _ (@List.length _) rows) (abatch fadd fsub fmul fdiv fis0 of_Z json_f json_s B rows).
+Proof.
+  intros HB. destruct rows as [|kr rest]; cbn [abatch].
+  - hnf; cbn [fst snd]. split; [lia|]. congruence.
+  - apply nf_bind' with (QA := anyv); [apply nf_exec_res|]. intros rs _. hnf; cbn [fst snd].
+    rewrite skipn_length. cbn [List.length]. split; lia.
+Qed.
+
+Lemma nf_adrain_row p rows : nf anyv (adrain_row fadd fsub fmul fdiv fis0 of_Z json_f json_s p rows).
+Proof.
+  unfold adrain_row. destruct (Group.pl_limit p); [|apply nf_exec_res].
+  apply nf_ldrain_row. intros s. apply nf_anext.
+Qed.
+
+Lemma nf_adrain_batch p B rows : 1 <= B ->
+  nf anyv (adrain_batch fadd fsub fmul fdiv fis0 of_Z json_f json_s p B rows).
+Proof.
+  intros HB. unfold adrain_batch. destruct (Group.pl_limit p); [|apply nf_exec_res].
+  apply nf_bind' with (QA := anyv); [|intros; exact I].
+  apply nf_ldrain_batch_fuel with (mu := @List.length _); [intros s; apply nf_abatch; exact HB | lia].
+Qed.
+
+Lemma nf_lrun_row p pairs :
+  nf anyv (lrun_row fadd fsub fmul fdiv fltb fis0 of_Z to_Z fmt_f bits_f json_f parse_f json_s p pairs).
+Proof. apply nf_adrain_row. Qed.
+
+Lemma nf_lrun_batch p B chunks : 1 <= B ->
+  nf anyv (lrun_batch fadd fsub fmul fdiv fltb fis0 of_Z to_Z fmt_f bits_f json_f parse_f json_s p B chunks).
+Proof. apply nf_adrain_batch. Qed.
+
+End AggFinish.
+
+(* ================================================================ Model/SelectPlans.v: FinalOrderPlan over a child *)
+Section OrderNodes.
+Variable C : Type.
+Variable crows : C -> res (list Order.row).
+Variable cbats : C -> res (list (list Order.row)).
+Variable cdone : C.
+Variable parse_int parse_float : bytes -> option Z.
+Variable ords : list Order.ofield.
+Hypothesis Hrows : forall c, nf anyv (crows c).
+Hypothesis Hbats : forall c, nf anyv (cbats c).
+
+Lemma nf_of_pop {A} (o : option A) : nf anyv (of_pop o).
+Proof. destruct o; exact I. Qed.
+
+Lemma nf_ord_row c : nf anyv (ord_row C crows parse_int parse_float ords c).
+Proof. unfold ord_row. apply nf_bind' with (QA := anyv); [apply Hrows|]. intros; apply nf_of_pop. Qed.
+
+Lemma nf_ord_batch B c : nf anyv (ord_batch C cbats parse_int parse_float ords B c).
+Proof. unfold ord_batch. apply nf_bind' with (QA := anyv); [apply Hbats|]. intros; apply nf_of_pop. Qed.
+
+Lemma nf_onext s : nf anyv (onext C crows cdone parse_int parse_float ords s).
+Proof.
+  destruct s as [st c]. unfold onext. destruct (Order.total st =? 0).
+  - apply nf_bind' with (QA := anyv); [apply Hrows|]. intros rows _.
+    destruct (Order.next parse_int parse_float ords st rows) as [[[r| |] st'] x]; exact I.
+  - destruct (Order.next parse_int parse_float ords st []) as [[[r| |] st'] x]; exact I.
+Qed.
+
+Lemma nf_ord_limit_row start count c :
+  nf anyv (ord_limit_row C crows cdone parse_int parse_float ords start count c).
+Proof. unfold ord_limit_row. apply nf_ldrain_row. apply nf_onext. Qed.
+
+End OrderNodes.
+
+(* ================================================================ whole statements *)
+Section StatementNodes.
+Variable P : Type.
+Variable frow : P -> res bool.
+Variable fbatch : list P -> res (list bool).
+Variable prow : P -> res Order.row.
+Variable pbatch : list P -> res (list Order.row).
+Variable F : Type.
+Variable fadd fsub fmul fdiv : F -> F -> F.
+Variable fltb : F -> F -> bool.
+Variable fis0 : F -> bool.
+Variable of_Z : Z -> F.
+Variable to_Z : F -> Z.
+Variable fmt_f : F -> bytes.
+Variable bits_f : F -> bytes.
+Variable json_f : F -> option bytes.
+Variable parse_f : bytes -> option F.
+Variable json_s : bytes -> bytes.
+Variable T : Type.
+Variable t0 : T.
+Variable obs_row : Group.plan F -> T -> P -> res (Group.pobs F * T).
+Variable obs_batch : Group.plan F -> T -> list P -> res (list (Group.pobs F) * T).
+Variable aconv : list (Group.value F) -> Order.row.
+Variable parse_int parse_float : bytes -> option Z.
+Hypothesis Hfrow : forall kv, nf anyv (frow kv).
+Hypothesis Hfbatch : forall ch, nf anyv (fbatch ch).
+Hypothesis Hprow : forall kv, nf anyv (prow kv).
+Hypothesis Hpbatch : forall ch, nf anyv (pbatch ch).
+Hypothesis Hobs_row : forall p t kv, nf anyv (obs_row p t kv).
+Hypothesis Hobs_batch : forall p t ch, nf anyv (obs_batch p t ch).
+
+Notation agg_rows := (agg_rows P frow F fadd fsub fmul fdiv fltb fis0 of_Z to_Z fmt_f bits_f json_f parse_f json_s T t0 obs_row aconv).
+Notation agg_bats := (agg_bats P fbatch F fadd fsub fmul fdiv fltb fis0 of_Z to_Z fmt_f bits_f json_f parse_f json_s T t0 obs_batch aconv).
+Notation run_shape_row := (run_shape_row P frow prow F fadd fsub fmul fdiv fltb fis0 of_Z to_Z fmt_f bits_f json_f parse_f json_s T t0 obs_row aconv parse_int parse_float).
+Notation run_shape_batch := (run_shape_batch P fbatch pbatch F fadd fsub fmul fdiv fltb fis0 of_Z to_Z fmt_f bits_f json_f parse_f json_s T t0 obs_batch aconv parse_int parse_float).
+
+Lemma nf_agg_rows p sl : nf anyv (agg_rows p sl).
+Proof.
+  unfold SelectPlans.agg_rows, agg_row. apply nf_bind' with (QA := anyv); [|intros; exact I].
+  apply nf_bind' with (QA := anyv); [apply nf_sdrain_row; [exact Hfrow | apply Hobs_row]|].
+  intros obs _. apply nf_lrun_row.
+Qed.
+
+Lemma nf_agg_bats B p sl : 1 <= B -> nf anyv (agg_bats B p sl).
+Proof.
+  intros HB. unfold SelectPlans.agg_bats, agg_batch. apply nf_bind' with (QA := anyv); [|intros; exact I].
+  apply nf_bind' with (QA := anyv); [apply nf_sdrain_batch; [exact Hfbatch | apply Hobs_batch | exact HB]|].
+  intros obs _. apply nf_lrun_batch. exact HB.
+Qed.
+
+Lemma nf_with_ords {A} (s : stmt F) os (k : list Order.ofield -> res A) :
+  (forall ords, nf anyv (k ords)) -> nf anyv (with_ords F s os k).
+Proof. intros H. unfold with_ords. destruct (Order.init_orders os (s_names F s) (s_types F s)); [apply H | exact I]. Qed.
+
+(* the shapes buildFinalPlan returns *)
+Inductive built : shape -> Prop :=
+  | b_proj : built SProj
+  | b_lim_proj st n : built (SLimit st n SProj)
+  | b_ord_proj os : built (SOrder os SProj)
+  | b_lim_ord_proj st n os : built (SLimit st n (SOrder os SProj))
+  | b_agg st l : built (SAgg st l)
+  | b_ord_agg os : built (SOrder os (SAgg 0 None))
+  | b_lim_ord_agg st n os : built (SLimit st n (SOrder os (SAgg 0 None))).
+
+Lemma build_final_plan_built has_aggr order limit : built (build_final_plan has_aggr order limit).
+Proof.
+  unfold build_final_plan. destruct has_aggr; cbn [negb].
+  - destruct limit as [[st n]|]; destruct order as [os|]; constructor.
+  - destruct order as [os|].
+    + destruct (Order.build_final_order_plan Order.FChild false os); destruct limit as [[st n]|]; constructor.
+    + destruct limit as [[st n]|]; constructor.
+Qed.
+
+Theorem nf_run_shape_row s sh sl : built sh -> nf anyv (run_shape_row s sh sl).
+Proof.
+  intros Hb. destruct Hb; cbn [SelectPlans.run_shape_row].
+  - apply nf_drain_row; assumption.
+  - apply nf_ldrain_row. intros r. eapply nf_weaken; [|apply nf_proj_next; assumption]. intros; exact I.
+  - apply nf_with_ords. intros ords. apply nf_ord_row. intros c. apply nf_drain_row; assumption.
+  - apply nf_with_ords. intros ords. apply nf_ord_limit_row. intros c. apply nf_drain_row; assumption.
+  - apply nf_agg_rows.
+  - apply nf_with_ords. intros ords. apply nf_ord_row. intros c. apply nf_agg_rows.
+  - apply nf_with_ords. intros ords. apply nf_ord_limit_row. intros c. apply nf_agg_rows.
+Qed.
+
+(* batch mode: every shape but FinalLimitPlan(FinalOrderPlan(..)) -- see the header of the
+   theorem in Properties/C06.v for what is missing there *)
+Definition lim_over_order (sh : shape) : bool :=
+  match sh with SLimit _ _ (SOrder _ _) => true | _ => false end.
+
+Theorem nf_run_shape_batch_partial B s sh sl : 1 <= B -> built sh -> lim_over_order sh = false ->
+  nf anyv (run_shape_batch B s sh sl).
+Proof.
+  intros HB Hb Hl. destruct Hb; cbn [SelectPlans.run_shape_batch]; try discriminate Hl.
+  - apply nf_bind' with (QA := anyv); [|intros; exact I]. apply nf_drain_batch; assumption.
+  - apply nf_bind' with (QA := anyv); [|intros; exact I].
+    apply nf_ldrain_batch_fuel with (mu := @List.length _).
+    + intros r. apply nf_proj_batch; assumption.
+    + unfold limit_fuel, lt. apply le_S, le_n.
+  - apply nf_with_ords. intros ords. apply nf_bind' with (QA := anyv); [|intros; exact I].
+    apply nf_ord_batch. intros c. apply nf_drain_batch; assumption.
+  - apply nf_bind' with (QA := anyv); [|intros; exact I]. apply nf_agg_bats. exact HB.
+  - apply nf_with_ords. intros ords. apply nf_bind' with (QA := anyv); [|intros; exact I].
+    apply nf_ord_batch. intros c. apply nf_agg_bats. exact HB.
+Qed.
+
+End StatementNodes.
